@@ -371,7 +371,7 @@ fn render_stmt(s: &Json, ind: usize) -> String {
 }
 
 /// Replace the identifier `from` (whole words only) by `to`.
-fn rename_ident(text: &str, from: &str, to: &str) -> String {
+pub fn rename_ident(text: &str, from: &str, to: &str) -> String {
     let is_id = |c: char| c.is_ascii_alphanumeric() || c == '_';
     let mut out = String::new();
     let mut rest = text;
